@@ -333,12 +333,27 @@ func (e *Engine) importedPkg(from *types.Package, qual string) *types.Package {
 			}
 		}
 	}
+	// deterministic fallback: the shortest non-internal path with that package name
+	var best *types.Package
 	for _, p := range e.pkgs {
 		if p.Types != nil && p.Types.Name() == qual {
-			return p.Types
+			if best == nil || betterPkgPath(p.Types.Path(), best.Path()) {
+				best = p.Types
+			}
 		}
 	}
-	return nil
+	return best
+}
+
+func betterPkgPath(a, b string) bool {
+	ai, bi := strings.Contains(a, "internal/"), strings.Contains(b, "internal/")
+	if ai != bi {
+		return !ai
+	}
+	if len(a) != len(b) {
+		return len(a) < len(b)
+	}
+	return a < b
 }
 
 // isContractFile: zz_verif_contracts.go and generated companions zz_verif_*_contracts.go.
